@@ -11,10 +11,15 @@ import (
 // result must be (extensionally) what a freshly constructed instance returns for the current
 // values of the arguments: Combine and Empty are functions of the current values, not of the call
 // history or of addresses. Every sequence of the given depth over the alphabet is run.
+//
+// The caller owns what an instance returns: a further kind of step writes into the value most
+// recently RETURNED by the long-lived instance (the result of Empty() or of Combine) when it has a
+// mutable referent (a map, a slice, a pointer). An instance that hands out the same mutable value
+// again later (a memoised Empty, a cached result) then answers differently from a fresh instance.
 
 type histOp struct {
-	kind string // "combine", "empty", "mut"
-	i, j int    // operand indices (mut: j = which contents)
+	kind string // "combine", "empty", "mut", "mutr"
+	i, j int    // operand indices (mut/mutr: j = which contents)
 }
 
 func (n *node) doMut(v any, pick int) bool {
@@ -53,6 +58,19 @@ func (n *node) histAlphabet() []histOp {
 			ops = append(ops, histOp{"mut", i, 0}, histOp{"mut", i, 1})
 		}
 	}
+	// writes into a returned value: possible if Empty() or some Combine result has a mutable referent
+	fresh := n.mkOps()
+	returned := []any{fresh.combine(vals[0], vals[1]), fresh.combine(vals[1], vals[2])}
+	if fresh.empty != nil {
+		returned = append(returned, fresh.empty())
+	}
+	for _, v := range returned {
+		if n.doMut(v, 0) {
+			n.mutable = true
+			ops = append(ops, histOp{"mutr", 0, 0}, histOp{"mutr", 0, 1})
+			break
+		}
+	}
 	n.histOps = ops
 	return ops
 }
@@ -63,6 +81,8 @@ func (n *node) history(seq []int) (law, msg string, trace []string) {
 	vals := n.histValues()
 	long := n.mkOps() // the long-lived instance
 	name := []string{"a", "b", "c"}
+	var last any // the value most recently returned by the long-lived instance
+	haveLast := false
 	defer func() {
 		if r := recover(); r != nil {
 			law, msg = "panic", fmt.Sprintf("%s panicked in the call sequence [%s]: %v", n.name, strings.Join(trace, "; "), r)
@@ -77,6 +97,7 @@ func (n *node) history(seq []int) (law, msg string, trace []string) {
 			got := long.combine(a, b)
 			gotS := n.show(got)
 			want := n.mkOps().combine(a, b)
+			last, haveLast = got, true
 			trace = append(trace, fmt.Sprintf("Combine(%s=%s,%s=%s)=%s", name[op.i], sa, name[op.j], sb, gotS))
 			if !n.eqv(got, want) {
 				return "combine-depends-on-history", fmt.Sprintf("%s: Combine(%s,%s)=%s on the long-lived instance, a freshly constructed instance gives %s for the same values %s, %s — call sequence on one instance: %s",
@@ -84,9 +105,21 @@ func (n *node) history(seq []int) (law, msg string, trace []string) {
 			}
 		case "empty":
 			got, want := long.empty(), n.mkOps().empty()
+			last, haveLast = got, true
 			trace = append(trace, "Empty()="+n.show(got))
 			if !n.eqv(got, want) {
 				return "empty-depends-on-history", fmt.Sprintf("%s: Empty()=%s on the long-lived instance, a freshly constructed instance gives %s — call sequence on one instance: %s", n.name, n.show(got), n.show(want), strings.Join(trace, "; ")), trace
+			}
+		case "mutr":
+			if !haveLast {
+				trace = append(trace, "(nothing returned yet)")
+				continue
+			}
+			before := n.show(last)
+			if n.doMut(last, op.j) {
+				trace = append(trace, fmt.Sprintf("the caller writes into the returned value: %s becomes %s", before, n.show(last)))
+			} else {
+				trace = append(trace, "(the returned value "+before+" has no mutable referent)")
 			}
 		case "mut":
 			before := n.show(vals[op.i])
